@@ -226,7 +226,7 @@ def _find_pattern_of(body, nm):
         if n.get("k") == "SLet" and nm in pat_bindings(n["pat"]) and "init" in n:
             cands.append(strip(n["init"]))
     for src in cands:
-        for c in exprs(src, "MethodCall"):
+        for c in exprs_deep(src, "MethodCall"):
             if c["m"] in ("find", "rfind") and c.get("args"):
                 v = lit_value(c["args"][0])
                 if isinstance(v, str):
@@ -236,7 +236,7 @@ def _find_pattern_of(body, nm):
 
 def _bound_safe(E, hb, e, depth=0):
     """(ok, why) for a slice bound expression"""
-    e = strip(e)
+    e = deref(e)
     k = e.get("k")
     body = hb["body"]
     if depth > 16:
@@ -252,9 +252,18 @@ def _bound_safe(E, hb, e, depth=0):
     if k == "MethodCall":
         if e["m"] == "len_utf8":
             return True, "len_utf8()"
+        if e["m"] == "count":
+            # count of leading ASCII chars
+            root, ch = chain(e)
+            ms = [x["m"] for x in ch]
+            if ms == ["chars", "take_while", "count"]:
+                clo = closure_of(ch[1]["args"][0])
+                lits = [x["lit"].get("v") for x in exprs(clo["body"], "Lit")] if clo else []
+                if lits and all(isinstance(v, str) and len(v) == 1 and ord(v) < 0x80 for v in lits):
+                    return True, "count of leading ASCII characters"
         if e["m"] == "len" and _is_str_ty(e["recv"].get("ty")) or (e["m"] == "len" and "str" in norm(e["recv"].get("ty", ""))):
             return True, "len() of a string"
-        if e["m"] in ("unwrap_or", "unwrap_or_else", "unwrap_or_default") and strip(e["recv"]).get("m") in ("find", "rfind"):
+        if e["m"] in ("unwrap_or", "unwrap_or_else", "unwrap_or_default") and deref(e["recv"]).get("m") in ("find", "rfind"):
             return True, "position returned by find()"
         return False, "result of %s()" % e["m"]
     if k == "Binary" and e["op"] == "Add" and isinstance(lit_value(e["r"]), int) and local_name(e["l"]):
@@ -326,16 +335,16 @@ def _bound_safe(E, hb, e, depth=0):
         for st in exprs(body, "SLet"):
             if nm in pat_bindings(st["pat"]) and "init" in st:
                 src = strip(st["init"])
-                for c in exprs(src, "MethodCall"):
+                for c in exprs_deep(src, "MethodCall"):
                     if c["m"] in ("char_indices", "match_indices"):
                         return True, "offset produced by %s()" % c["m"]
                 inner = src
                 # `iter.next().ok_or(..)?` on a char_indices iterator defined earlier
-                for c in exprs(src, "MethodCall"):
+                for c in exprs_deep(src, "MethodCall"):
                     if c["m"] == "next":
                         it = local_name(chain(c)[0])
                         for st2 in exprs(body, "SLet"):
-                            if it in pat_bindings(st2["pat"]) and any(x["m"] == "char_indices" for x in exprs(st2.get("init", {}), "MethodCall")):
+                            if it in pat_bindings(st2["pat"]) and any(x["m"] == "char_indices" for x in exprs_deep(st2.get("init", {}), "MethodCall")):
                                 return True, "offset produced by char_indices()"
         return False, "local `%s` of unknown origin" % nm
     return False, "expression %s" % k
